@@ -1,6 +1,7 @@
 import Uquic.Oracle.Frame
 import Uquic.Model.Wire.Varint
 import Uquic.Model.Wire.Frames
+import Uquic.Model.Wire.Parser
 import Uquic.Model.Wire.Header
 import Uquic.Model.Wire.TransportParams
 import Uquic.Model.Wire.Token
@@ -252,6 +253,10 @@ structure St where
   shdrEncs : List (String × List String) := []
   vnEncs : List (String × List String) := []
   tpEncs : List (String × String × String) := []   -- (impl hex, perspective, tp text)
+  /-- model: the `FrameParser` objects of this case, one per flag set (key = the three flag characters);
+      their exponent is a function of the ops only (last `setexp` / numeric exponent of a parse op), so
+      the monitors may use it as ghost state -/
+  parsers : List (String × Parser) := []
 
 abbrev Fail := String × String × String
 
@@ -422,7 +427,7 @@ def headerOfWords (ws : List String) : Header :=
   { ptype := kvn ws "t=", version := kvn ws "v=" % 2 ^ 32, dest := (unhx (kv ws "d=")).take 20, src := (unhx (kv ws "s=")).take 20,
     length := kvn ws "len=", token := unhx (kv ws "tok=") }
 
-def step (s : St) (op impl : String) : St × StepOut :=
+def stepCore (s : St) (op impl : String) : St × StepOut :=
   let w := words op
   let noPanic (fails : List Fail) : List Fail :=
     if isPanic impl then fails ++ [("no_panic", "-", s!"{w.headD ""} panicked")] else fails
@@ -1038,5 +1043,53 @@ def step (s : St) (op impl : String) : St × StepOut :=
       return fails
     (s, { model := model, tags := [s!"tokrt:{kind}:{ak}"], fails := fails })
   | _ => (s, { model := "skip", tags := ["skip"] })
+
+/-! ### the `FrameParser` object
+
+`dec` / `sweep` / `cut dec` / `lenb dec` name a parser by its flags.  A numeric exponent means the driver
+called `SetAckDelayExponent` right before parsing; `=` means it did not, so the parse runs with whatever
+the object holds (set by an earlier `setexp` or numeric op of the same case; 0 for a fresh parser).  The
+model's `Parser` resolves the exponent; `stepCore` then judges the parse under that context. -/
+
+def flagKey (flags : String) : String := String.ofList ((flags.toList ++ ['0', '0', '0']).take 3)
+
+def parserOf (s : St) (flags : String) : Parser :=
+  match s.parsers.find? (fun kp => kp.1 = flagKey flags) with
+  | some (_, p) => p
+  | none =>
+    let f := (flagKey flags).toList
+    Parser.new (f.getD 0 '0' == '1') (f.getD 1 '0' == '1') (f.getD 2 '0' == '1')
+
+def putParser (s : St) (flags : String) (p : Parser) : St :=
+  { s with parsers := (flagKey flags, p) :: s.parsers.filter (fun kp => kp.1 ≠ flagKey flags) }
+
+def step (s : St) (op impl : String) : St × StepOut :=
+  let w := words op
+  match w with
+  | ["setexp", flags, e] =>
+    let p := (parserOf s flags).setAckDelayExponent (natOf e)
+    (putParser s flags p,
+      { model := "ok", tags := [s!"setexp:{if p.ackDelayExponent = defaultAckDelayExponent then "default" else if p.ackDelayExponent ≤ 20 then "valid" else "large"}"],
+        fails := if isPanic impl then [("no_panic", "-", "SetAckDelayExponent panicked")] else [] })
+  | _ =>
+    let pos : Option Nat := match w with
+      | "dec" :: _ => some 2
+      | "sweep" :: _ => some 2
+      | "cut" :: "dec" :: _ => some 3
+      | "lenb" :: "dec" :: _ => some 3
+      | _ => none
+    match pos with
+    | some i =>
+      if w.length ≤ i + 1 then stepCore s op impl else
+      let flags := w.getD i ""
+      let exp := w.getD (i + 1) ""
+      let p0 := parserOf s flags
+      let p := if exp = "=" then p0 else p0.setAckDelayExponent (natOf exp)
+      let w' := w.set (i + 1) (toString p.ackDelayExponent)
+      let (s1, out) := stepCore s (" ".intercalate w') impl
+      -- `Parser.parse` returns the parser unchanged (Uquic.Props.C08Parser.parse_keeps_configuration)
+      (putParser s1 flags p,
+        { out with tags := out.tags ++ (if exp = "=" then [s!"parser:kept_exp:{w.getD (i - 1) ""}:{if p.ackDelayExponent = defaultAckDelayExponent then "default" else "other"}"] else []) })
+    | none => stepCore s op impl
 
 def main : IO Unit := run { init := ({} : St), step := step }
